@@ -115,6 +115,47 @@ theorem C15_crash_full_false : ¬ C15_crash_full := by
   rcases H (some ⟨1, 0, 0⟩) (.profile ⟨2, 1, 0⟩) 8 with e | e <;>
     exact toDisk_ne_empty _ (by rw [← e, hd])
 
+/-- the program counter of the process after `n` actions -/
+def pcAfter (h : Abs) (b : Beh) (n : Nat) : PC := (iter n (toDisk h, Proc.init b)).2.pc
+
+/-- **Strongest true restriction.**  The only unsafe window is between `open(path, "wb")` and the `write`: a
+    process that dies at any other point — before, after the write, during the network exchange, inside an
+    `assert` — leaves the old profile or the new one, for every good cache, every server behaviour and every
+    number of actions `n`. -/
+theorem C15_crash_partial (h : Abs) (b : Beh) (n : Nat) (hsafe : ∀ q, pcAfter h b n ≠ .write q) :
+    diskAfterCrash h b n = toDisk h ∨ diskAfterCrash h b n = toDisk (specStep h b).1 := by
+  have hd : diskAfterCrash h b n = (iter n (toDisk h, Proc.init b)).1 := by
+    simp only [diskAfterCrash, Sys.run, List.foldl_append, List.foldl_cons, List.foldl_nil]
+    have := sys1_run (toDisk h) (Proc.init b) n
+    simp only [Sys.run] at this
+    rw [this]
+    simp [Sys.act]
+  rw [hd]
+  have hi := callInv_iter h b n _ _ (callInv_init h b)
+  obtain ⟨_, _, hpc⟩ := hi
+  unfold pcAfter at hsafe
+  generalize (iter n (toDisk h, Proc.init b)).2.pc = pc at hpc hsafe
+  generalize (iter n (toDisk h, Proc.init b)).1 = d at hpc
+  cases pc with
+  | write q => exact absurd rfl (hsafe q)
+  | close q => simp only at hpc; right; rw [hpc.1, hpc.2]
+  | done r => exact hpc
+  | start => exact .inl hpc
+  | readCache => exact .inl hpc
+  | mkdir => exact .inl hpc.1
+  | post _ => exact .inl hpc.1
+  | parseResp _ _ => exact .inl hpc.1
+  | assertCached _ => exact .inl hpc
+  | assertCode0 _ _ _ => exact .inl hpc.1
+  | serverDate _ _ => exact .inl hpc.1
+  | assertDate _ _ => exact .inl hpc.1
+  | openWb _ => exact .inl hpc.1
+
+-- the guard is satisfiable at a non-trivial point: after the write (9 actions) the process may die safely …
+example : pcAfter (some ⟨1, 0, 0⟩) (.profile ⟨2, 1, 0⟩) 9 = .close ⟨2, 1, 0⟩ := rfl
+-- … and the excluded point is exactly the witness of `C15_crash_full_false`
+example : pcAfter (some ⟨1, 0, 0⟩) (.profile ⟨2, 1, 0⟩) 8 = .write ⟨2, 1, 0⟩ := rfl
+
 /-- What the torn file does afterwards: **every** later call fails and the file stays as it is, whatever the
     server answers — the cache does not heal. -/
 theorem C15_torn_stays (c : Content) (hc : parse c = none) (hist : List Beh) :
@@ -167,5 +208,67 @@ theorem C15_interleave_full_false : ¬ C15_interleave_full := by
   cases h' with
   | none => simp at hv
   | some p => rw [view_toDisk_some] at hv; cases hv
+
+/-- **Strongest true restriction.**  When the two calls do not overlap — all actions of one, then all of the
+    other — the file ends up as after the sequential history `[b0, b1]`, to which `C15_seq` applies. -/
+theorem C15_interleave_partial (h : Abs) (b0 b1 : Beh) :
+    ((Sys.mk (toDisk h) [Proc.init b0, Proc.init b1]).run
+        (List.replicate fuel (.step 0) ++ List.replicate fuel (.step 1))).disk
+      = toDisk (heldAt h [b0, b1] 2) := by
+  have hh : heldAt h [b0, b1] 2 = (specStep (specStep h b0).1 b1).1 := by
+    rw [heldAt_step h [b0, b1] 1 b1 rfl, heldAt_step h [b0, b1] 0 b0 rfl]; rfl
+  have h0 := sys2_run0 (toDisk h) (Proc.init b0) (Proc.init b1) fuel
+  simp only [Sys.run] at h0 ⊢
+  rw [List.foldl_append, h0, iter_fuel_disk]
+  have h1 := sys2_run1 (toDisk (specStep h b0).1) (iter fuel (toDisk h, Proc.init b0)).2 (Proc.init b1) fuel
+  simp only [Sys.run] at h1
+  rw [h1, iter_fuel_disk, hh]
+
+example : TwoProcSched (List.replicate fuel (.step 0) ++ List.replicate fuel (.step 1)) := by
+  intro a ha
+  simp at ha
+  rcases ha with ⟨_, h⟩ | ⟨_, h⟩
+  · exact .inl h
+  · exact .inr h
+
+/-! ### the cache key -/
+
+open Ofx.ClientSM in
+/-- **Full statement (false).**  Clients configured for different servers never share a cache file. -/
+def C15_key_full : Prop :=
+  ∀ c1 c2 : Cfg, c1.url ≠ c2.url → cacheKey c1.org c1.fid ≠ cacheKey c2.org c2.fid
+
+open Ofx.ClientSM in
+/-- Witness: two clients without ORG/FID and different URLs both use `None-None.profrs`. -/
+theorem C15_key_full_false : ¬ C15_key_full := by
+  intro H
+  exact H ⟨⟨0, 0⟩, none, none, none, none, true⟩ ⟨⟨1, 0⟩, none, none, none, none, true⟩ (by decide) rfl
+
+example : cacheKey none none = "None-None.profrs".toList := by decide
+
+/-- What sharing the file does: client A (no ORG/FID) caches profile `p` from its server; client B (no ORG/FID,
+    another server) then asks *its* server with A's DTPROFUP, and if that server answers "up to date" — which it
+    will whenever its own profile is older — B is handed A's profile, service URLs included. -/
+theorem C15_key_shared (p : Profile) :
+    let (fs1, oA) := callFS FS.empty none none (.profile p)
+    let (_, oB) := callFS fs1 none none .upToDate
+    oA.res = .ok (.prof p) ∧ oB.sent = some (some p.date) ∧ oB.res = .ok (.prof p) := by
+  have hk : FS.empty (cacheKey none none) = toDisk none := rfl
+  simp only [callFS, hk, call_eq, FS.set, if_true]
+  simp [specStep, accepts, resOf]
+
+/-- `-` inside ORG also merges keys: ("A-B", "C") and ("A", "B-C") name the same file. -/
+example : cacheKey (some "A-B".toList) (some "C".toList) = cacheKey (some "A".toList) (some "B-C".toList) := by
+  decide
+
+/-- **Strongest true restriction.**  Among clients that do configure ORG and FID, with no `-` in ORG, the file
+    name determines (ORG, FID): distinct institutions never share a file. -/
+theorem C15_key_partial (o1 f1 o2 f2 : Str) (h1 : '-' ∉ o1) (h2 : '-' ∉ o2)
+    (h : cacheKey (some o1) (some f1) = cacheKey (some o2) (some f2)) : o1 = o2 ∧ f1 = f2 := by
+  simp only [cacheKey, pyStrOpt, List.append_assoc, List.cons_append] at h
+  obtain ⟨ho, hf⟩ := split_unique '-' o1 o2 _ _ h1 h2 h
+  exact ⟨ho, List.append_cancel_right hf⟩
+
+example : '-' ∉ "ORG".toList := by decide
 
 end Ofx.Cache
